@@ -115,7 +115,9 @@ KhatriRaoWhy(mats, reverse, res) ==
 
 EventWhy(ev) ==
   LET a == ev.args   r == ev.ret
-  IN  CASE ev.op = "sub2ind"   -> Sub2IndWhy(a.shape, a.subs, r)
+  IN  \* helpers are pure functions: the harness reports argument arrays that differ after the call
+      IF r.st = "operand-changed" THEN "operand-changed-by-the-call" ELSE
+      CASE ev.op = "sub2ind"   -> Sub2IndWhy(a.shape, a.subs, r)
         [] ev.op = "ind2sub"   -> Ind2SubWhy(a.shape, a.idx, r)
         [] ev.op = "dimscheck" -> DimsCheckWhy(a.N, a.hasM, a.M, a.dims, a.excl, r)
         [] ev.op = "ismember"  -> IsMemberWhy(a.A, a.B, r)
